@@ -155,6 +155,12 @@ func VerifyFunction(p *Program, cs *ContractSet, key string, ct *Contract, maxPa
 			n = fmt.Sprintf("arg%d", i)
 		}
 		v := ex.paramVal0(prm.Type(), "in."+n, st)
+		if isKVStore(prm.Type()) {
+			// a store handed in as a parameter (migrations): it is the module store declared by the package's kvstore directive
+			if kd, ok := cs.KVStores[fn.Pkg.Pkg.Path()]; ok {
+				v = Val{Store: kd.Ghost}
+			}
+		}
 		args = append(args, v)
 	}
 	// a function literal under contract: its captured variables are symbolic too (named as in the source)
